@@ -16,3 +16,46 @@ Theorem C09_one_unfinished : forall c ops, hist_ok ops ->
   rs_finished (r_state a) = true.
 Proof. exact p_one_unfinished. Qed.
 Print Assumptions C09_one_unfinished.
+
+(* ---------- trigger.go, for EVERY state (world, fault plan, lease): Trigger creates exactly one run or nothing ---------- *)
+From WF Require Import proofs.HandlerFacts.
+
+(* no declared starting status, or an undeclared requested one: an error before any adapter call, nothing written *)
+Theorem C09_bad_start_rejected : forall c fid start seed s,
+  (trigger_start c start = None \/ exists st0, trigger_start c start = Some st0 /\ is_valid (ec_graph c) st0 = false) ->
+  exists e, api_trigger c fid start seed s = (Err e, s).
+Proof. exact trigger_rejects_bad_start. Qed.
+Print Assumptions C09_bad_start_rejected.
+
+(* the newest-created run of the foreign ID is unfinished: ErrWorkflowInProgress right after the lookup — no Store *)
+Theorem C09_refused_while_unfinished : forall c fid start seed st0 s l s1,
+  trigger_start c start = Some st0 -> is_valid (ec_graph c) st0 = true ->
+  p_latest fid s = (Ok (Some l), s1) -> rs_valid (r_state l) = true -> rs_finished (r_state l) = false ->
+  api_trigger c fid start seed s = (Err 3, s1).
+Proof. exact trigger_refused_while_unfinished. Qed.
+Print Assumptions C09_refused_while_unfinished.
+
+(* the lookup of the latest run failed: its error is returned — no Store *)
+Theorem C09_lookup_failure_writes_nothing : forall c fid start seed st0 s e s1,
+  trigger_start c start = Some st0 -> is_valid (ec_graph c) st0 = true ->
+  p_latest fid s = (Err e, s1) -> api_trigger c fid start seed s = (Err e, s1).
+Proof. exact trigger_lookup_failed. Qed.
+Print Assumptions C09_lookup_failure_writes_nothing.
+
+(* otherwise (no run yet, or the latest one finished): exactly ONE Store call, of a fresh run ID, Initiated, version 1, at the
+   requested or default starting status with the given initial value *)
+Theorem C09_creates_exactly_one : forall c fid start seed st0 s lastr s1,
+  trigger_start c start = Some st0 -> is_valid (ec_graph c) st0 = true ->
+  p_latest fid s = (Ok lastr, s1) ->
+  (match lastr with Some l => rs_valid (r_state l) && negb (rs_finished (r_state l)) | None => false end) = false ->
+  api_trigger c fid start seed s =
+  p_store c (new_run_record fid st0 seed (o_w s1))
+          (mkOst (set_nrun (o_w s1) (w_nrun (o_w s1) + 1)%N) (o_plan s1) (o_counts s1) (o_trace s1) (o_lease s1) (o_dead s1)).
+Proof. exact trigger_creates_exactly_one. Qed.
+Print Assumptions C09_creates_exactly_one.
+
+Theorem C09_new_record : forall fid st0 seed w,
+  let r := new_run_record fid st0 seed w in
+  r_ver r = 1 /\ r_state r = RSInitiated /\ r_status r = st0 /\ r_fid r = fid /\ r_run r = w_nrun w /\ r_obj r = OVal seed [] /\ r_created r = w_now w.
+Proof. exact new_run_record_shape. Qed.
+Print Assumptions C09_new_record.
